@@ -148,7 +148,7 @@ func init() {
 	}
 
 	Checks["C15"] = func(c *Ctx) {
-		nmax, depth := pick(c, 6, 6), pick(c, 4, 6)
+		nmax, depth := pick(c, 6, 6), pick(c, 5, 6)
 		c.Cov.Rule = "every block history (no de-duplication) with at most Nmax leaves ever added and at most D blocks (every deletion subset of the live leaves x every addition count, non-empty blocks); the summaries fed to AddBlockSummary are the reference proof targets in request order and the addition counts; GenerateCachingSchedule is evaluated for every memory limit from 1 to (leaves ever added)+1 on a fresh tracker; oracle from the model's birth/death table: every scheduled position of block b is the insertion slot of a leaf added in b and deleted in a later block, ascending without repeats, at most m scheduled leaves alive across any block, complete when m >= leaves ever added, no panic; states = histories, transitions = (history, limit) evaluations, non-trivial = histories with a deletion"
 		c.Cov.Bound["Nmax"] = nmax
 		c.Cov.Bound["depth"] = depth
